@@ -115,7 +115,9 @@ class Report:
     def floor(self, what: str, count: int, minimum: int) -> None:
         self.counters[what] = count
         if count < minimum:
-            raise AnalysisError(
+            # not a verdict: if other rules found a violation it is reported (exit 1), otherwise the
+            # run ends as an analysis error (exit 2) - never as a pass
+            self.defer(
                 f"instance floor: {what} = {count} < {minimum} confirmed by hand; "
                 "the rule would pass vacuously"
             )
